@@ -458,7 +458,7 @@ func (mi *muxInstance) serveHTTP(stdw http.ResponseWriter, stdr *http.Request) {
 			header[k] = v
 		}
 		stdw.WriteHeader(resp.StatusCode())
-		respBodySize, _ := io.Copy(stdw, resp.GetPayload())
+		respBodySize, copyErr := io.Copy(stdw, resp.GetPayload())
 
 		ctx.Finish()
 
@@ -492,6 +492,15 @@ func (mi *muxInstance) serveHTTP(stdw http.ResponseWriter, stdr *http.Request) {
 				stdr.Proto, resp.StatusCode(), metric.Duration, metric.ReqSize,
 				metric.RespSize, ctx.Tags())
 		})
+
+		// The body could not be copied completely (e.g. a stream payload whose
+		// source failed): abort the connection, otherwise net/http would end
+		// the message cleanly and the client would take the truncated body
+		// for the whole one. (A response that must not have a body, e.g. 304
+		// or the answer to HEAD, refuses the write; that is not a failure.)
+		if copyErr != nil && copyErr != http.ErrBodyNotAllowed {
+			panic(http.ErrAbortHandler)
+		}
 	}()
 
 	route := mi.search(req)
